@@ -11,79 +11,127 @@ import Bolt.Lemmas.NestedMap
 namespace Bolt.C04
 open Bolt
 
+-- several laws hold even without the `SWF` hypothesis they are stated with (lookup finds the
+-- first entry, `setBucketAt`/`entsErase` touch every entry with the key); the hypothesis is kept
+-- because the property is about well-formed states, so silence the unused-variable linter.
+set_option linter.unusedVariables false
+
 /-! ### well-formedness is preserved by every successful call -/
 
 theorem put_wf (r : SVal) (p : List Bytes) (k v : Bytes) (r' : SVal) (h : SWF r)
     (hp : apiPut r p k v = .ok r') : SWF r' := by
-  sorry
+  obtain ⟨s, e, hb, _, _, _, _, rfl⟩ := apiPut_ok hp
+  have ⟨h1, h2⟩ := bucketAt_wf h hb
+  exact setBucketAt_wf _ (entsInsert_sorted _ _ h1) (entsInsert_wf (by rw [SWF]; trivial) h2) _ _ h
 
 theorem delete_wf (r : SVal) (p : List Bytes) (k : Bytes) (r' : SVal) (h : SWF r)
     (hp : apiDelete r p k = .ok r') : SWF r' := by
-  sorry
+  obtain ⟨s, e, hb, _, ⟨_, rfl⟩ | ⟨_, rfl⟩⟩ := apiDelete_ok hp
+  · exact h
+  · have ⟨h1, h2⟩ := bucketAt_wf h hb
+    exact setBucketAt_wf _ (entsErase_sorted _ h1) (fun q hq => h2 q (mem_entsErase hq)) _ _ h
 
 theorem createBucket_wf (r : SVal) (p : List Bytes) (k : Bytes) (b : Bool) (r' : SVal) (h : SWF r)
     (hp : apiCreateBucket r p k b = .ok r') : SWF r' := by
-  sorry
+  obtain ⟨s, e, hb, _, ⟨_, _, rfl⟩ | ⟨_, rfl⟩⟩ := apiCreateBucket_ok hp
+  · exact h
+  · have ⟨h1, h2⟩ := bucketAt_wf h hb
+    have h0 : SWF (.bkt 0 []) := (swf_bkt _ _).mpr ⟨List.Pairwise.nil, by simp⟩
+    exact setBucketAt_wf _ (entsInsert_sorted _ _ h1) (entsInsert_wf h0 h2) _ _ h
 
 theorem deleteBucket_wf (r : SVal) (p : List Bytes) (k : Bytes) (r' : SVal) (h : SWF r)
     (hp : apiDeleteBucket r p k = .ok r') : SWF r' := by
-  sorry
+  obtain ⟨s, e, hb, _, rfl⟩ := apiDeleteBucket_ok hp
+  have ⟨h1, h2⟩ := bucketAt_wf h hb
+  exact setBucketAt_wf _ (entsErase_sorted _ h1) (fun q hq => h2 q (mem_entsErase hq)) _ _ h
 
 theorem moveBucket_wf (r : SVal) (src : List Bytes) (k : Bytes) (dst : List Bytes) (r' : SVal) (h : SWF r)
     (hp : apiMoveBucket r src k dst = .ok r') : SWF r' := by
-  sorry
+  obtain ⟨s, e, ds0, de, ms, me, ds, de1, hb1, hb2, hl, hne, hl2, hpre, hb3, rfl⟩ := apiMoveBucket_ok hp
+  have ⟨h1, h2⟩ := bucketAt_wf h hb1
+  have hm : SWF (.bkt ms me) := h2 _ (entsLookup_mem hl)
+  have hr1 : SWF (setBucketAt src (s, entsErase k e) r) :=
+    setBucketAt_wf _ (entsErase_sorted _ h1) (fun q hq => h2 q (mem_entsErase hq)) _ _ h
+  have ⟨h3, h4⟩ := bucketAt_wf hr1 hb3
+  exact setBucketAt_wf _ (entsInsert_sorted _ _ h3) (entsInsert_wf hm h4) _ _ hr1
 
 theorem setSequence_wf (r : SVal) (p : List Bytes) (n : Nat) (r' : SVal) (h : SWF r)
     (hp : apiSetSequence r p n = .ok r') : SWF r' := by
-  sorry
+  obtain ⟨s, e, hb, _, rfl⟩ := apiSetSequence_ok hp
+  have ⟨h1, h2⟩ := bucketAt_wf h hb
+  exact setBucketAt_wf _ h1 h2 _ _ h
 
 /-! ### map laws: a transaction reads its own writes -/
 
 /-- `Get` after `Put` of the same key returns the value just put -/
 theorem get_put_same (r : SVal) (p : List Bytes) (k v : Bytes) (r' : SVal) (h : SWF r)
     (hp : apiPut r p k v = .ok r') : apiGet r' p k = .ok (some v) := by
-  sorry
+  obtain ⟨s, e, hb, hp', _, _, _, rfl⟩ := apiPut_ok hp
+  rw [apiGet_eq k (bucketAt_setBucketAt_same _ hb) hp']
+  simp [entsGet, entsLookup_insert_same]
 
 /-- … and leaves every other key of that bucket as it was -/
 theorem get_put_other (r : SVal) (p : List Bytes) (k k' v : Bytes) (r' : SVal) (h : SWF r) (hne : k' ≠ k)
     (hp : apiPut r p k v = .ok r') : apiGet r' p k' = apiGet r p k' := by
-  sorry
+  obtain ⟨s, e, hb, hp', _, _, _, rfl⟩ := apiPut_ok hp
+  rw [apiGet_eq k' (bucketAt_setBucketAt_same _ hb) hp', apiGet_eq k' hb hp']
+  simp [entsGet, entsLookup_insert_other _ _ hne]
 
 /-- `Get` after `Delete` of the same key finds nothing -/
 theorem get_delete_same (r : SVal) (p : List Bytes) (k : Bytes) (r' : SVal) (h : SWF r)
     (hp : apiDelete r p k = .ok r') : apiGet r' p k = .ok none ∨ apiGet r' p k = .error .rootOp := by
-  sorry
+  left
+  obtain ⟨s, e, hb, hp', ⟨hl, rfl⟩ | ⟨_, rfl⟩⟩ := apiDelete_ok hp
+  · rw [apiGet_eq k hb hp']; simp [entsGet, hl]
+  · rw [apiGet_eq k (bucketAt_setBucketAt_same _ hb) hp']
+    simp [entsGet, entsLookup_erase_same]
 
 theorem get_delete_other (r : SVal) (p : List Bytes) (k k' : Bytes) (r' : SVal) (h : SWF r) (hne : k' ≠ k)
     (hp : apiDelete r p k = .ok r') : apiGet r' p k' = apiGet r p k' := by
-  sorry
+  obtain ⟨s, e, hb, hp', ⟨hl, rfl⟩ | ⟨_, rfl⟩⟩ := apiDelete_ok hp
+  · rfl
+  · rw [apiGet_eq k' (bucketAt_setBucketAt_same _ hb) hp', apiGet_eq k' hb hp']
+    simp [entsGet, entsLookup_erase_other _ hne]
 
 /-- a created bucket exists, is empty and has sequence 0 -/
 theorem createBucket_creates (r : SVal) (p : List Bytes) (k : Bytes) (r' : SVal) (h : SWF r)
     (hp : apiCreateBucket r p k false = .ok r') : bucketAt (p ++ [k]) r' = some (0, []) := by
-  sorry
+  obtain ⟨s, e, hb, _, ⟨hb', _, _⟩ | ⟨_, rfl⟩⟩ := apiCreateBucket_ok hp
+  · cases hb'
+  · rw [bucketAt_snoc k (bucketAt_setBucketAt_same _ hb), entsLookup_insert_same]
+    simp
 
 /-- a deleted bucket (with everything nested in it) is gone -/
 theorem deleteBucket_removes (r : SVal) (p : List Bytes) (k : Bytes) (r' : SVal) (h : SWF r)
     (hp : apiDeleteBucket r p k = .ok r') : bucketAt (p ++ [k]) r' = none := by
-  sorry
+  obtain ⟨s, e, hb, _, rfl⟩ := apiDeleteBucket_ok hp
+  rw [bucketAt_snoc k (bucketAt_setBucketAt_same _ hb), entsLookup_erase_same]
+  rfl
 
 /-- a moved bucket arrives with its whole content (keys, values, nested buckets, sequence)
     and is gone from the source -/
 theorem moveBucket_moves (r : SVal) (src : List Bytes) (k : Bytes) (dst : List Bytes) (r' : SVal) (h : SWF r)
     (hp : apiMoveBucket r src k dst = .ok r') :
     bucketAt (dst ++ [k]) r' = bucketAt (src ++ [k]) r ∧ bucketAt (src ++ [k]) r' = none := by
-  sorry
+  obtain ⟨s, e, ds0, de, ms, me, ds, de1, hb1, hb2, hl, hne, hl2, hpre, hb3, rfl⟩ := apiMoveBucket_ok hp
+  refine ⟨?_, ?_⟩
+  · rw [bucketAt_snoc k (bucketAt_setBucketAt_same _ hb3), entsLookup_insert_same,
+      bucketAt_snoc k hb1, hl]
+  · exact moveBucket_src_gone hb1 hb2 hne hl2 hpre hb3
 
 /-- sequences: `SetSequence` then `Sequence`; `NextSequence` increments by one -/
 theorem sequence_set (r : SVal) (p : List Bytes) (n : Nat) (r' : SVal)
     (hp : apiSetSequence r p n = .ok r') : apiSequence r' p = .ok n := by
-  sorry
+  obtain ⟨s, e, hb, hp', rfl⟩ := apiSetSequence_ok hp
+  exact apiSequence_eq (bucketAt_setBucketAt_same _ hb) hp'
 
 theorem sequence_next (r : SVal) (p : List Bytes) (r' : SVal) (n s : Nat)
     (hs : apiSequence r p = .ok s) (hp : apiNextSequence r p = .ok (r', n)) :
     n = (s + 1) % 2^64 ∧ apiSequence r' p = .ok n := by
-  sorry
+  obtain ⟨s', e, hb, hp', hn, rfl⟩ := apiNextSequence_ok hp
+  rw [apiSequence_eq hb hp'] at hs
+  cases hs
+  exact ⟨hn, apiSequence_eq (bucketAt_setBucketAt_same _ hb) hp'⟩
 
 /-! ### documented errors -/
 
@@ -93,27 +141,50 @@ theorem put_errors (r : SVal) (p : List Bytes) (k v : Bytes) (s : Nat) (e : Ents
     (k ≠ [] → k.length > maxKeySize → apiPut r p k v = .error .keyTooLarge) ∧
     (k ≠ [] → k.length ≤ maxKeySize → v.length ≤ maxValueSize → (∃ s' e', entsLookup e k = some (.bkt s' e')) →
        apiPut r p k v = .error .incompatibleValue) := by
-  sorry
+  have h1 : p.isEmpty = false := by cases p <;> simp at hp ⊢
+  refine ⟨?_, ?_, ?_⟩
+  · intro hk; subst hk
+    simp [apiPut, hb, h1]
+  · intro hk hkl
+    have h2 : k.isEmpty = false := by cases k <;> simp at hk ⊢
+    simp [apiPut, hb, h1, h2, hkl]
+  · intro hk hkl hvl ⟨s', e', hl⟩
+    have h2 : k.isEmpty = false := by cases k <;> simp at hk ⊢
+    have h3 : ¬ k.length > maxKeySize := by omega
+    have h4 : ¬ v.length > maxValueSize := by omega
+    simp [apiPut, hb, h1, h2, h3, h4, hl]
 
 theorem createBucket_errors (r : SVal) (p : List Bytes) (k : Bytes) (s : Nat) (e : Ents)
     (hb : bucketAt p r = some (s, e)) :
     (k = [] → apiCreateBucket r p k false = .error .bucketNameRequired) ∧
     (k ≠ [] → (∃ s' e', entsLookup e k = some (.bkt s' e')) → apiCreateBucket r p k false = .error .bucketExists) ∧
     (k ≠ [] → (∃ v, entsLookup e k = some (.val v)) → apiCreateBucket r p k false = .error .incompatibleValue) := by
-  sorry
+  refine ⟨?_, ?_, ?_⟩
+  · intro hk; subst hk
+    simp [apiCreateBucket, hb]
+  · intro hk ⟨s', e', hl⟩
+    have h2 : k.isEmpty = false := by cases k <;> simp at hk ⊢
+    simp [apiCreateBucket, hb, h2, hl]
+  · intro hk ⟨v, hl⟩
+    have h2 : k.isEmpty = false := by cases k <;> simp at hk ⊢
+    simp [apiCreateBucket, hb, h2, hl]
 
 theorem deleteBucket_errors (r : SVal) (p : List Bytes) (k : Bytes) (s : Nat) (e : Ents)
     (hb : bucketAt p r = some (s, e)) :
     (entsLookup e k = none → apiDeleteBucket r p k = .error .bucketNotFound) ∧
     ((∃ v, entsLookup e k = some (.val v)) → apiDeleteBucket r p k = .error .incompatibleValue) := by
-  sorry
+  refine ⟨?_, ?_⟩
+  · intro hl
+    simp [apiDeleteBucket, hb, hl]
+  · intro ⟨v, hl⟩
+    simp [apiDeleteBucket, hb, hl]
 
 /-- a missing bucket anywhere on the path is reported, never silently created -/
 theorem missing_bucket (r : SVal) (p : List Bytes) (k v : Bytes) (hb : bucketAt p r = none) :
     apiPut r p k v = .error .noBucket ∧ apiGet r p k = .error .noBucket ∧
     apiDelete r p k = .error .noBucket ∧ apiCreateBucket r p k false = .error .noBucket ∧
     apiDeleteBucket r p k = .error .noBucket := by
-  sorry
+  simp [apiPut, apiGet, apiDelete, apiCreateBucket, apiDeleteBucket, hb]
 
 /-! ### iteration order -/
 
@@ -121,10 +192,10 @@ theorem missing_bucket (r : SVal) (p : List Bytes) (k v : Bytes) (hb : bucketAt 
 theorem keys_ascending (r : SVal) (p : List Bytes) (s : Nat) (e : Ents) (h : SWF r)
     (hb : bucketAt p r = some (s, e)) :
     List.Pairwise (fun a b => Bytes.lt a b = true) (e.map (·.1)) := by
-  sorry
+  exact (entsSortedP_iff_keys e).mp (bucketAt_wf h hb).1
 
 /-- non-vacuity -/
 example : SWF (.bkt 0 [([1], .bkt 7 [([2], .val [9]), ([3], .bkt 0 [])]), ([4], .bkt 0 [])]) := by
-  sorry
+  simp [SWF, EntsWF, EntsSorted, Bytes.lt]
 
 end Bolt.C04
